@@ -688,8 +688,12 @@ type MemberExpression struct {
 
 func (me *MemberExpression) WriteTo(cw *CodeWriter) {
 	if il, ok := me.Object.(*IntegerLiteral); ok && !me.Computed && isDecimalDigits(il.Token.Literal) {
-		// `1.prop` would be read as a number with a fraction: print `(1).prop`
-		writeParenthesized(cw, me.Object)
+		// `1.prop` would be read as a number with a fraction: print `(1).prop`;
+		// comments in front of the literal stay in front of the parenthesis
+		cw.WriteLeadingComments(il.Token.LeadingComments)
+		bare := *il
+		bare.Token.LeadingComments = nil
+		writeParenthesized(cw, &bare)
 	} else {
 		me.Object.WriteTo(cw)
 	}
